@@ -17,26 +17,31 @@ from ..gen import c04_cells as gen
 from ..oracle import c04_crystal as X
 from .. import monitor, cover
 
-RULE = ('unit cells: 9 cell kinds (7 crystal families, strongly tilted, arbitrarily oriented) x 3 origin classes x 3 '
-        'length scales, 1-5 atoms, 1-3 types, an integer and a float-vector per-atom property, 5 position classes '
-        '(generic / atom on the lattice point / only 0-and-1/2 positions / mixed / atoms on faces and edges), all '
-        'assigned round-robin from the case index.  supersize: 8 multiplier classes (positive, negative, two-sided, '
-        'half-open tuples, numpy ints, tuples of numpy ints, mixed, unit).  rotate: EVERY integer 3x3 matrix with '
-        'entries in [-1,1] and det != 0 (11 808, both handedness) each on a cell whose kind rotates with the index, '
-        'seeded samples with entries up to 2 and 3 (entry of maximal magnitude present, sign of det alternating, '
-        '4 argument forms), Miller-Bravais 3x4 sets on hexagonal cells, and the documented refusals.  Conversions: '
-        'all 22 (setting, basis, family) combinations of p,i,f,a,b,c,t1,t2,t with a compatible family, in both '
-        'directions and both round trips.  Non-trivial = the call changes the cell (replication > 1, vectors not the '
-        'identity, setting not p); distinct = distinct fingerprint of (cell, atoms, argument).')
+RULE = ('unit cells: 9 cell kinds (7 crystal families, strongly tilted, arbitrarily oriented), 1-5 atoms, 1-3 types, an integer and '
+        'a float-vector per-atom property, 5 position classes (generic / atom on the lattice point / only 0-and-1/2 positions / '
+        'mixed / atoms on faces and edges), cell origin classes zero / within one cell vector of 0 / a few cells away / 1e3 cells '
+        'away, and for supersize 3 length scales - all assigned round-robin from the case index.  supersize: 8 multiplier classes '
+        '(positive, negative, two-sided, half-open tuples, numpy ints, tuples of numpy ints, mixed, unit), positional and keyword '
+        'form.  rotate: EVERY integer 3x3 matrix with entries in [-1,1] and det != 0 (11 808, both handedness; first pass on '
+        'origins zero/small, the further passes of the thorough tier on all four origin classes), seeded samples with entries up '
+        'to 2 and 3 (an entry of maximal magnitude present, sign of det alternating, 4 argument forms, with and without '
+        'return_transform), Miller-Bravais 3x4 sets (reduced and unreduced) on hexagonal cells, and the documented refusals.  '
+        'Conversions: all 22 (setting, basis, family) combinations of p,i,f,a,b,c,t1,t2,t with a compatible family, both dump '
+        'styles, both round trips, primitive input in raw and arbitrarily rotated orientation.  Non-trivial = the call changes the '
+        'cell (replication > 1, vectors not the identity, setting not p); distinct = distinct fingerprint of (cell, atoms, argument).')
 ASSUMPTIONS = ['cells are right-handed and well conditioned (volume >= 10 % of abc); atoms of one cell are at least 0.12 x the '
                'shortest cell vector apart',
                'matched positions are compared with the bound 1e-6 x longest original cell vector; "inside" is judged in '
                'relative coordinates with a 1e-9 bound',
                'per-atom property values must be carried over identically (vector properties are not expected to be rotated)',
-               'the result of rotate()/conversions is re-based at a zero origin: the two cell corners are taken as the same '
-               'crystal point (anchor="origin"); supersize is judged in absolute coordinates',
-               'entries beyond [-1,1] are a seeded sample, not an enumeration; conversions use cells of ordinary size (the '
-               'style adds an absolute 0.001 shift)',
+               '"maps through the returned rotation" is accepted in either of two frames: x_orig = inv(T).x_res (the literal reading; '
+               'what rotate does today for non-identity vector sets) or with the two cell corners identified (what the identity '
+               'shortcut / normalize does, and what rotate would do once the origin-offset finding is repaired); supersize is judged '
+               'in absolute coordinates only',
+               'conventional_to_primitive refusing (check_basis) a cell that has no atom on its corner lattice point is a documented '
+               'refusal; it occurs for c2p(p2c(x)) when x has a non-zero origin and is counted, not failed',
+               'entries beyond [-1,1] are a seeded sample, not an enumeration (all of [-2,2] would be 1.9 million calls); '
+               'conversions use cells of ordinary size (the style adds an absolute 0.001 shift)',
                'oracle shares numpy/LAPACK with the code under test']
 
 CONFIG = {'quick': dict(shards=8, seeds=1, timeout=900),
